@@ -3,6 +3,7 @@
 #include "vfh_proto.hh"
 #include "BarnettSmartVTMF_dlog.hh"
 #include "PedersenVSS.hh"
+#include "mpz_shash.hh"
 #ifndef H_P
 #define H_P 23
 #endif
